@@ -298,7 +298,6 @@ func VerifC18ReadSeq(l1, l2 int) {
 	verifReach("end")
 }
 
-
 // verifC18FrameOK: layout and IP header checksum of one emitted frame (see VerifC18Write).
 func verifC18FrameOK(f, payload, wsrc, wdst []byte, sport, dport uint16) {
 	n := len(payload)
